@@ -1505,6 +1505,70 @@ def _ladder_expr(body: list[ast.stmt]) -> ast.expr | None:
     return None
 
 
+def reduce_local_lambdas(fn: ast.AST, known_locals) -> int:
+    """C6b: a local bound once to a lambda (`f = lambda x: E`, incl. a nested def already turned into one) whose every use is a
+    direct positional call `f(a)` with pure arguments is beta-reduced — `f(a)` becomes `E[x := a]` — and the binding dropped,
+    provided the tables do not know the name and nothing E reads freely is bound after the lambda is made."""
+    done = 0
+    bound = _bound_names(fn)
+    for holder in list(ast.walk(fn)):
+        for fld in ("body", "orelse", "finalbody"):
+            block = getattr(holder, fld, None)
+            if not (isinstance(block, list) and block and isinstance(block[0], ast.stmt)):
+                continue
+            for st in list(block):
+                if isinstance(st, ast.FunctionDef) and st is not fn and not st.decorator_list and _ladder_expr(st.body) is not None:
+                    # a nested `def f(x): return E` used several times is the lambda as well
+                    args_ = copy.deepcopy(st.args)
+                    for x_ in args_.posonlyargs + args_.args:
+                        x_.annotation = None
+                    name, lam = st.name, ast.Lambda(args=args_, body=_ladder_expr(st.body))
+                elif isinstance(st, ast.Assign) and len(st.targets) == 1 and isinstance(st.targets[0], ast.Name) and isinstance(st.value, ast.Lambda):
+                    name, lam = st.targets[0].id, st.value
+                else:
+                    continue
+                if (known_locals is not None and name in known_locals) or len(bound.get(name, [])) != 1:
+                    continue
+                a = lam.args
+                if a.vararg or a.kwarg or a.kwonlyargs or a.defaults or a.posonlyargs:
+                    continue
+                params = [x.arg for x in a.args]
+                uses = [n for n in ast.walk(fn) if isinstance(n, ast.Name) and n.id == name and isinstance(n.ctx, ast.Load)]
+                parents = {id(c): p for p in ast.walk(fn) for c in ast.iter_child_nodes(p)}
+                calls = [parents.get(id(u)) for u in uses]
+                # arguments are pure, or E is a call `g(p1, …, pn, <pure…>)` that evaluates exactly the parameters, once each, in order
+                # (then substituting even an impure argument keeps what is evaluated and in which order)
+                e_ = lam.body
+                in_order = isinstance(e_, ast.Call) and _is_pure(e_.func) and not e_.keywords and [x.id for x in e_.args if isinstance(x, ast.Name) and x.id in params] == params and all((isinstance(x, ast.Name) and x.id in params) or _is_pure(x) for x in e_.args)
+                uses = [u for u in uses if not any(u is x for x in ast.walk(st))] if isinstance(st, ast.FunctionDef) else uses
+                calls = [parents.get(id(u)) for u in uses]
+                if not uses or not all(isinstance(c, ast.Call) and c.func is u and len(c.args) == len(params) and not c.keywords and (in_order or all(_is_pure(x) for x in c.args)) for c, u in zip(calls, uses)):
+                    continue
+                free = {x.id for x in ast.walk(lam.body) if isinstance(x, ast.Name) and isinstance(x.ctx, ast.Load)} - set(params)
+                order = _seq(fn)
+                later_store = any(isinstance(x, ast.Name) and isinstance(x.ctx, (ast.Store, ast.Del)) and x.id in free and order.get(id(x), 0) > order.get(id(st), 0) for x in ast.walk(fn))
+                if later_store or any(order.get(id(u), 0) < order.get(id(st), 0) for u in uses):
+                    continue
+                # each parameter must be used at most once in E, or the argument duplicated is pure anyway (it is: checked above)
+                for c in calls:
+                    sub = dict(zip(params, c.args))
+                    new = _Subst({k: v for k, v in sub.items()}).visit(copy.deepcopy(lam.body))
+                    par = parents.get(id(c))
+                    for f_, v_ in ast.iter_fields(par):
+                        if v_ is c:
+                            setattr(par, f_, ast.copy_location(new, c))
+                        elif isinstance(v_, list):
+                            for i_, x_ in enumerate(v_):
+                                if x_ is c:
+                                    v_[i_] = ast.copy_location(new, c)
+                block.remove(st)
+                if not block:
+                    block.append(ast.Pass())
+                done += 1
+                bound = _bound_names(fn)
+    return done
+
+
 def nested_defs_to_lambdas(fn: ast.AST, known_inner: set[str]) -> int:
     done = 0
     for blk_owner in list(ast.walk(fn)):
@@ -2511,6 +2575,7 @@ def canonicalize(trees: dict[str, ast.Module], known: dict | None) -> dict:
                         log["renamed_binders"] += canonical_names(fn, entry)
                     n = nested_defs_to_lambdas(fn, inner_known)
                     log["lambdas_from_defs"] += n
+                    n += reduce_local_lambdas(fn, (set(kl) | inner_known) if kl is not None else inner_known)
                     k = propagate_locals(fn, kl) + forward_temporaries(fn, kl)
                     log["propagated_locals"] += k
                     c = loops_to_comprehensions(fn, kl)
